@@ -222,7 +222,7 @@ def check_set(core, parser, v, ec, rec):
                     # the set was given to Message(...): its truncation character is emitted exactly when it was supplied
                     rec.violation('truncation-character-not-emitted-exactly-when-supplied', case,
                                   {'supplied_to_Message': ec.get('TRUNCATION'), 'msh': m4.to_er7()[:12],
-                                   'after': 'message.value = <text declaring %r>' % ''.join(ec_tuple(other))})
+                                   'after': 'message.value = <text declaring %r>' % ''.join(x for x in ec_tuple(other) if x)})
                 elif m4.encoding_chars != want or m4.to_er7() != t4 or back.encoding_chars != want:
                     rec.violation('assigned-text-with-other-truncation-leaves-an-inconsistent-set', case,
                                   {'declared': ec_tuple(other), 'getter': m4.encoding_chars.get('TRUNCATION'),
